@@ -246,3 +246,123 @@ Proof.
   cbn [o_err o_events o_rules evs]. rewrite Hcb. split; [reflexivity|]. split; [|reflexivity].
   unfold pre_events. fold ed. rewrite app_nil_r, rev_app_distr, !rev_involutive, <- !app_assoc. reflexivity.
 Qed.
+
+(* ------------------------------------------------------------------ callback API when the no-scan pass is allowed *)
+From Boreal Require Import Proofs.InterruptProofs Proofs.NoScanScannerProofs.
+
+Lemma do_scan_noscan_cb c inp sc :
+  c_cb c = true -> can_noscan c = true ->
+  wf_scanner inp sc = true -> ns_bound (s_nns sc) (s_globals sc) -> ns_bound (s_nns sc) (s_rules sc) ->
+  exists k pre,
+    do_scan c Never inp sc {| pend := []; evs := []; nchecks := 0 |}
+    = ({| pend := []; evs := rev (pre ++ events_of c (scan_result c inp sc)); nchecks := k |}, inl tt)
+    /\ (pre = (if c_direct c then import_events c inp else []) \/ pre = pre_events c inp).
+Proof.
+  intros Hcb Hns Hw Hbg Hbr. pose proof (can_noscan_nm c Hns) as Hnm.
+  pose proof Hw as Hw'. unfold wf_scanner in Hw'. apply andb_true_iff in Hw' as [Hwg Hwr].
+  set (ed := if c_direct c then import_events c inp else []).
+  set (s0 := {| pend := []; evs := []; nchecks := 0 |}).
+  unfold do_scan. rewrite Hns. unfold bindM at 1.
+  assert (Eimp : (if c_direct c then send_imports c Never inp else ret tt) s0
+                 = ({| pend := []; evs := rev ed; nchecks := 0 |}, inl tt)).
+  { subst ed s0. destruct (c_direct c); [rewrite send_imports_cb by exact Hcb; cbn [pend evs nchecks updE];
+      rewrite app_nil_r; reflexivity|reflexivity]. }
+  rewrite Eimp. clear Eimp. set (s1 := {| pend := []; evs := rev ed; nchecks := 0 |}).
+  unfold bindM at 1.
+  rewrite on_timeout_noop
+    by (destruct (good_eval_without_matches c (AbortAt 1) ltac:(discriminate) inp sc) as [E _]; apply E).
+  unfold eval_without_matches. unfold bindM at 1. unfold ctx0.
+  destruct (eval_globals_pass1 c inp (s_globals sc) (repeat false (s_nns sc)) (repeat false (s_nns sc))
+              (i_matches inp) false s1 eq_refl (fun ns H => H) Hwg ltac:(rewrite repeat_length; exact Hbg))
+    as [k1 [dis1 [reps1 [unk [E1 [Hl1 [Hs1 Heq]]]]]]].
+  rewrite E1. clear E1. cbn [orb]. subst s1. cbn [pend app upd evs].
+  rewrite (g_fold_ms _ c inp (s_globals sc) _ (repeat false (s_nns sc)) (i_matches inp)) in Hwr.
+  pose proof (g_fold_length c inp (s_globals sc) (repeat false (s_nns sc)) (i_matches inp)) as HlD.
+  (* the full pass from this state, when the first pass is discarded *)
+  assert (Hfull : forall kx, exists k,
+            full_scan c Never inp sc {| pend := []; evs := rev ed; nchecks := kx |}
+            = ({| pend := []; evs := rev (pre_events c inp ++ events_of c (scan_result c inp sc)); nchecks := k |}, inl tt)).
+  { intros kx. unfold full_scan.
+    (* reuse full_scan_cb up to the check counter: run it from the same events *)
+    clear - Hcb Hw. pose proof Hw as Hw'. unfold wf_scanner in Hw'. apply andb_true_iff in Hw' as [Hwg Hwr].
+    set (s0 := {| pend := []; evs := rev ed; nchecks := kx |}).
+    unfold bindM at 1. destruct (ac_phase_cb c (i_ac inp) Hcb s0) as [k0 E0]. rewrite E0.
+    unfold bindM at 1.
+    set (ei := if c_direct c then [] else import_events c inp).
+    assert (Eimp : (if c_direct c then ret tt else send_imports c Never inp)
+                     (updE s0 (pend s0) (rev (limit_events c (i_ac inp)) ++ evs s0) k0)
+                   = (updE s0 [] (rev ei ++ rev (limit_events c (i_ac inp)) ++ rev ed) k0, inl tt)).
+    { subst ei s0. destruct (c_direct c); [reflexivity|]. rewrite send_imports_cb by exact Hcb. reflexivity. }
+    rewrite Eimp. clear Eimp.
+    unfold bindM at 1. unfold ctx0.
+    destruct (eval_globals_any c inp (s_globals sc) (repeat false (s_nns sc)) (i_matches inp) false
+                (updE s0 [] (rev ei ++ rev (limit_events c (i_ac inp)) ++ rev ed) k0) Hwg) as [k1 E1].
+    rewrite E1. clear E1. unfold scan_result.
+    rewrite (g_fold_ms _ c inp (s_globals sc) _ (repeat false (s_nns sc)) (i_matches inp)) in Hwr.
+    destruct (g_fold c inp (repeat false (s_nns sc)) (i_matches inp) (s_globals sc)) as [[D m] greps].
+    cbn [fst snd pend upd updE evs app] in *.
+    unfold bindM at 1. rewrite fixup_list'. cbn [x_disabled pend upd evs nchecks].
+    unfold all_disabled. cbn [x_disabled].
+    assert (Hpre : rev ei ++ rev (limit_events c (i_ac inp)) ++ rev ed = rev (pre_events c inp)).
+    { unfold pre_events. fold ed. fold ei. rewrite !rev_app_distr, <- !app_assoc. reflexivity. }
+    destruct (negb (c_nm c) && forallb (fun b : bool => b) D).
+    - unfold clear_pend. cbn [evs nchecks]. exists k1. f_equal. f_equal.
+      cbn [events_of flat_map]. rewrite app_nil_r. exact Hpre.
+    - unfold bindM at 1. unfold flush. rewrite Hcb. unfold bindM at 1. unfold get_pend at 1. unfold bindM at 1.
+      unfold clear_pend at 1. rewrite flush_list_never. cbn [pend evs nchecks updE].
+      unfold bindM at 1.
+      match goal with |- context [eval_rules c Never inp ?x (s_rules sc) true ?st] =>
+        destruct (eval_rules_cb c inp (s_rules sc) Hcb D m [] st Hwr) as [k2 E2]; rewrite E2
+      end.
+      unfold ret. cbn [evs pend updE]. exists k2. unfold updE. f_equal. f_equal.
+      rewrite Hpre, events_of_app, !rev_app_distr, <- !app_assoc. reflexivity. }
+  unfold scan_result in *.
+  destruct (g_fold c inp (repeat false (s_nns sc)) (i_matches inp) (s_globals sc)) as [[D m] greps] eqn:Eg.
+  cbn [fst snd] in *. rewrite Hnm in *. cbn [negb andb] in *.
+  unfold all_disabled. cbn [x_disabled].
+  destruct (forallb (fun b : bool => b) dis1) eqn:Eall.
+  - (* every namespace disabled in the first pass: nothing is delivered *)
+    rewrite (sub_flags_all dis1 D ltac:(lia) Hs1 Eall) in *.
+    unfold bindM, clear_pend, ret, flush. rewrite Hcb. unfold bindM, get_pend, clear_pend. cbn [pend flush_list].
+    unfold ret. exists k1, ed. split; [|left; reflexivity].
+    cbn [events_of flat_map]. rewrite app_nil_r. reflexivity.
+  - destruct unk.
+    + unfold ret at 1. unfold bindM at 1. unfold clear_pend. cbn [pend upd evs nchecks].
+      destruct (Hfull k1) as [k2 E2]. rewrite E2. exists k2, (pre_events c inp). split; [|right; reflexivity].
+      destruct (forallb (fun b : bool => b) D); reflexivity.
+    + destruct (Heq eq_refl eq_refl) as [-> ->]. rewrite Eall in *.
+      unfold bindM at 1. rewrite fixup_list'. cbn [x_disabled pend upd evs nchecks].
+      unfold bindM at 1.
+      match goal with |- context [eval_rules c Never inp ?x (s_rules sc) false ?st] =>
+        destruct (eval_rules_pass1 c inp (s_rules sc) D m [] st Hwr) as [k2 [ok [reps [E2 Hok]]]]; rewrite E2
+      end.
+      destruct ok.
+      * rewrite (Hok eq_refl). unfold ret at 1. unfold flush. rewrite Hcb. unfold bindM, get_pend, clear_pend.
+        cbn [pend upd evs nchecks]. rewrite flush_list_never. cbn [pend evs nchecks updE].
+        exists k2, ed. split; [|left; reflexivity]. unfold updE. f_equal. f_equal.
+        rewrite rev_app_distr. reflexivity.
+      * unfold ret at 1. unfold bindM at 1. unfold clear_pend. cbn [pend upd evs nchecks].
+        destruct (Hfull k2) as [k3 E3]. rewrite E3. exists k3, (pre_events c inp). split; [|right; reflexivity].
+        reflexivity.
+Qed.
+
+(* callback API, any configuration: after the events of the string scan (module imports, match limits)
+   the rule events are exactly those of the specification *)
+Theorem run_scan_callback_spec_any c inp sc :
+  c_cb c = true ->
+  wf_scanner inp sc = true -> ns_bound (s_nns sc) (s_globals sc) -> ns_bound (s_nns sc) (s_rules sc) ->
+  o_err (run_scan c Never inp sc) = None
+  /\ o_rules (run_scan c Never inp sc) = []
+  /\ exists pre, o_events (run_scan c Never inp sc) = pre ++ spec_events c sc inp
+                 /\ (pre = (if c_direct c then import_events c inp else []) \/ pre = pre_events c inp).
+Proof.
+  intros Hcb Hw Hbg Hbr. destruct (can_noscan c) eqn:Hns.
+  - assert (Hspec : spec_events c sc inp = events_of c (scan_result c inp sc)).
+    { unfold spec_events. rewrite <- (scan_result_spec c inp sc Hbg Hbr). reflexivity. }
+    unfold run_scan.
+    destruct (do_scan_noscan_cb c inp sc Hcb Hns Hw Hbg Hbr) as [k [pre [E Hpre]]]. rewrite E.
+    cbn [o_err o_rules o_events evs]. rewrite Hcb. split; [reflexivity|]. split; [reflexivity|].
+    exists pre. rewrite rev_involutive, Hspec. split; [reflexivity|exact Hpre].
+  - destruct (run_scan_callback_spec c inp sc Hcb Hns Hw Hbg Hbr) as [H1 [H2 H3]].
+    split; [exact H1|]. split; [exact H3|]. exists (pre_events c inp). split; [exact H2|right; reflexivity].
+Qed.
